@@ -1,7 +1,7 @@
 #!/bin/bash
 # Own mutants must be detected (exit 1), property-preserving rewrites must stay green (exit 0).
 cd /verif
-prop_of() { case "$1" in *obj*|*p2-*) echo C14;; *) echo C13;; esac; }
+prop_of() { case "$1" in *obj*|*p2-*|*q2-*) echo C14;; *) echo C13;; esac; }
 for f in selftest/mutants/*.diff; do
   p=$(prop_of $f); out=$(tools/run_against.sh $f $p ${1:-quick}); rc=$(echo "$out" | grep -o 'exit=[0-9]*')
   echo "mutant     $(basename $f .diff) $p $rc $( [ "$rc" = "exit=1" ] && echo ok || echo UNEXPECTED)"
